@@ -760,7 +760,7 @@ static int dd_expression(struct demangle_data *dd)
 	char *exp = &dd->old[dd->pos];
 	char *unary_ops[] = {
 		"ps", "ng", "ad", "de", "pp_", "mm_", "pp", "mm", "dl",
-		"da", "te", "sz", "az", "nx",  "sp",  "tw", "nt",
+		"da", "te", "sz", "az", "nx",  "sp",  "tw", "nt",  "co",
 	};
 
 	if (dd_eof(dd))
@@ -797,7 +797,8 @@ static int dd_expression(struct demangle_data *dd)
 		/* binary operator */
 		if (c0 != ops[i].op[0] || c1 != ops[i].op[1])
 			continue;
-		if (c0 == 'c' || c1 == 'v')
+		/* "cl", "cv", "nw" and "na" take other operands (see below) */
+		if ((c0 == 'c' && (c1 == 'l' || c1 == 'v')) || (c0 == 'n' && (c1 == 'w' || c1 == 'a')))
 			continue;
 		dd_consume_n(dd, 2);
 		if (dd_expression(dd) < 0)
@@ -829,6 +830,7 @@ static int dd_expression(struct demangle_data *dd)
 		return dd_expr_list(dd);
 	}
 	if (c0 == 'n' && (c1 == 'w' || c1 == 'a')) {
+		dd_consume_n(dd, 2);
 		if (dd_expr_list(dd) < 0)
 			return -1;
 		if (dd_type(dd) < 0)
